@@ -71,7 +71,7 @@ def r1(ctx, rep):
     for tname, T in types.items():
         for opaque in (False, True):
             calls = []
-            mdl = Obj('model')
+            mdl = Obj('model', __srcclass__=(m, ClassRef(MODELS, 'BaseModel')))
             mdl._check_finished = lambda: calls.append('chk')
             mdl.is_sentence_opaque = lambda s, o=opaque: o
             for n in ('opaque', 'atomic', 'predicated', 'quantified', 'operated'):
@@ -97,7 +97,7 @@ def r1(ctx, rep):
             opr.__class__ = type('Op', (Obj,), {'__hash__': lambda s_: hash(s_._name), '__eq__': lambda s_, o: s_ is o})
             meta = Obj('Meta', modal=modal_logic, truth_functional_operators={opr} if oper in tf_ops else set(),
                        modal_operators={opr} if oper in modal_ops else set())
-            mdl = Obj('model', Meta=meta, maxval=9, minval=0)
+            mdl = Obj('model', __srcclass__=(m, ClassRef(MODELS, 'BaseModel')), Meta=meta, maxval=9, minval=0)
             mdl._check_finished = lambda: None
             mdl.value_of = lambda s, **kw: (calls.append(('value_of', s, kw)), f'v({s})')[1]
             mdl.truth_function = lambda o, *vals: (calls.append(('tf', o, vals)), 'TF')[1]
@@ -130,7 +130,7 @@ def r1(ctx, rep):
             qo = Obj(f'Quantifier.{q}')
             qo.Existential = qo if q == 'Ex' else Obj('o1')
             qo.Universal = qo if q == 'Un' else Obj('o2')
-            mdl = Obj('model', Meta=Obj('Meta', quantified=quantified), maxval=9, minval=0)
+            mdl = Obj('model', __srcclass__=(m, ClassRef(MODELS, 'BaseModel')), Meta=Obj('Meta', quantified=quantified), maxval=9, minval=0)
             mdl._check_finished = lambda: None
             mdl._unquantify_values = lambda s, **kw: (4, 2)
             r = it.safe(f('value_of_quantified'), [mdl, Obj('s', quantifier=qo)])
@@ -150,14 +150,14 @@ def r1(ctx, rep):
         def __rshift__(self, s):
             return ('inst', self.n, s)
     c1, c2 = Const(1), Const(2)
-    mdl = Obj('model', constants=[c1, c2])
+    mdl = Obj('model', __srcclass__=(m, ClassRef(MODELS, 'BaseModel')), constants=[c1, c2])
     mdl.value_of = lambda s, **kw: (s, tuple(sorted(kw.items())))
     r = it.generate(f('_unquantify_values'), [mdl, 'S'], dict(world=4))
     ok = r == [(('inst', 1, 'S'), (('world', 4),)), (('inst', 2, 'S'), (('world', 4),))]
     rep.instance(R1, ok=ok, nontrivial='_unquantify_values')
     if not ok:
         rep.finding(R1, 'C08.R1/_unquantify_values', m.loc(MODELS, f('_unquantify_values')), 'BaseModel._unquantify_values', f'does not yield the value of every constant instance once, with the keywords: {r!r}')
-    mdl = Obj('model', R={0: [5, 6], 5: [7]})
+    mdl = Obj('model', __srcclass__=(m, ClassRef(MODELS, 'BaseModel')), R={0: [5, 6], 5: [7]})
     mdl.value_of = lambda s, **kw: (s, tuple(sorted(kw.items())))
     r = it.generate(f('_unmodal_values'), [mdl, Obj('s', lhs='A')], dict(world=0))
     ok = r == [('A', (('world', 5),)), ('A', (('world', 6),))]
@@ -178,7 +178,7 @@ def r1(ctx, rep):
     # leaf lookups
     for name, store in (('value_of_atomic', 'atomics'), ('value_of_opaque', 'opaques')):
         fr = Obj('frame', **{store: {'p': 'VAL'}})
-        mdl = Obj('model', frames={2: fr}, Meta=Obj('Meta', unassigned_value='UN'))
+        mdl = Obj('model', __srcclass__=(m, ClassRef(MODELS, 'BaseModel')), frames={2: fr}, Meta=Obj('Meta', unassigned_value='UN'))
         mdl._check_finished = lambda: None
         r1_ = it.safe(f(name), [mdl, 'p'], dict(world=2))
         r2_ = it.safe(f(name), [mdl, 'q'], dict(world=2))
@@ -188,7 +188,7 @@ def r1(ctx, rep):
             rep.finding(R1, f'C08.R1/{name}', m.loc(MODELS, f(name)), f'BaseModel.{name}', f'does not read frames[world].{store} with the unassigned value as default: {r1_!r}, {r2_!r}')
     interp = {('c',): 'PV'}
     fr = Obj('frame', predicates={'P': interp})
-    mdl = Obj('model', frames={1: fr}, Meta=Obj('Meta', unassigned_value='UN'), constants={'c', 'd'})
+    mdl = Obj('model', __srcclass__=(m, ClassRef(MODELS, 'BaseModel')), frames={1: fr}, Meta=Obj('Meta', unassigned_value='UN'), constants={'c', 'd'})
     mdl._check_finished = lambda: None
     s_ok = Obj('s', params=('c',), predicate='P')
     s_un = Obj('s', params=('d',), predicate='P')
@@ -319,7 +319,7 @@ def cpl_finish_fold(ctx, rep, R3):
         def mkframe():
             return Obj('frame', predicates=collections.OrderedDict(P='interp'))
         frames = collections.OrderedDict((w, mkframe()) for w in sorted(worlds_with_frames))
-        mdl = Obj('model', frames=frames, R={w: set() for w in worlds_in_R})
+        mdl = Obj('model', __srcclass__=(m, ClassRef(MODELS, 'BaseModel')), frames=frames, R={w: set() for w in worlds_in_R})
 
         def complete():
             log.append('complete_frames')
